@@ -66,7 +66,16 @@ def coerce(c, dt):
             if core._isc(c.k) and c.k == 0 and isinstance(c.v, _z3.ExprRef) and _z3.is_app(c.v) \
                     and c.v.decl().kind() == _z3.Z3_OP_TO_REAL:
                 return SInt.mk(c.v.arg(0))
-            raise Unsupported('symbolic float stored into an integer array')
+            if core.active() and c.fin is True:
+                # a finite float stored into an integer array is truncated toward zero (C cast); values beyond the range of
+                # the element type are undefined behaviour in NumPy and are recorded as a wrap obligation
+                t = core.fresh_int('trunc')
+                tv, cv = _z3.ToReal(t.t), c.v
+                core.cur().add(_z3.If(cv >= 0, _z3.And(tv <= cv, cv < tv + 1), _z3.And(tv - 1 < cv, cv <= tv)))
+                info = _np.iinfo(dt)
+                core.cur().wrap_obligations.append((str(dt), (t >= int(info.min)) & (t <= int(info.max))))
+                return t
+            raise Unsupported('possibly non-finite symbolic float stored into an integer array')
         if isinstance(c, float):
             if math.isnan(c) or math.isinf(c):
                 raise ValueError('cannot convert float NaN/inf to integer')
